@@ -709,12 +709,16 @@ func (obj *SparseReal64Matrix) JointIterator(b ConstMatrix) MatrixJointIterator 
   return obj.JOINT_ITERATOR(b)
 }
 func (obj *SparseReal64Matrix) ITERATOR() *SparseReal64MatrixIterator {
-  r := SparseReal64MatrixIterator{*obj.values.ITERATOR(), obj}
+  // start at the first element of the (possibly sliced) matrix
+  k := obj.rowOffset*obj.colMax + obj.colOffset
+  r := SparseReal64MatrixIterator{*obj.values.ITERATOR_FROM(k), obj}
+  r.clip()
   return &r
 }
 func (obj *SparseReal64Matrix) ITERATOR_FROM(i, j int) *SparseReal64MatrixIterator {
   k := obj.index(i, j)
   r := SparseReal64MatrixIterator{*obj.values.ITERATOR_FROM(k), obj}
+  r.clip()
   return &r
 }
 func (obj *SparseReal64Matrix) JOINT_ITERATOR(b ConstMatrix) *SparseReal64MatrixJointIterator {
@@ -735,6 +739,28 @@ type SparseReal64MatrixIterator struct {
 }
 func (obj *SparseReal64MatrixIterator) Index() (int, int) {
   return obj.m.ij(obj.SparseReal64VectorIterator.Index())
+}
+func (obj *SparseReal64MatrixIterator) Ok() bool {
+  if !obj.SparseReal64VectorIterator.Ok() {
+    return false
+  }
+  // stop after the last row of a sliced matrix
+  i, _ := obj.Index()
+  return i < obj.m.rows
+}
+func (obj *SparseReal64MatrixIterator) Next() {
+  obj.SparseReal64VectorIterator.Next()
+  obj.clip()
+}
+// skip entries of the storage that are not within the columns of a
+// sliced matrix
+func (obj *SparseReal64MatrixIterator) clip() {
+  for obj.Ok() {
+    if _, j := obj.Index(); j >= 0 && j < obj.m.cols {
+      break
+    }
+    obj.SparseReal64VectorIterator.Next()
+  }
 }
 func (obj *SparseReal64MatrixIterator) Clone() *SparseReal64MatrixIterator {
   return &SparseReal64MatrixIterator{*obj.SparseReal64VectorIterator.Clone(), obj.m}
